@@ -718,7 +718,7 @@ class Buffer(gpp.UGenParameter, gpp.NodeParameter):
             raise BufferAlreadyFreed('setn')
         nargs = []
         for control, values in utl.gen_cclumps(args, 2):
-            if isinstance(values, list):
+            if isinstance(values, (list, tuple)):
                 nargs.extend([control, len(values), *values])
             else:
                 nargs.extend([control, 1, values])
